@@ -41,7 +41,9 @@ def run(chk):
         "R17a: at every call through `dyn Target` (target_get/insert/remove/get_mut) the returned Result is consumed only by the accepted idioms — "
         "`.ok()`-chains ending in a non-panicking consumer (read fault => missing), drop (write fault => ignored), or an explicit match — and never by "
         "unwrap/expect (directly or after .ok().flatten()) or `?`. R17b: in Runtime::resolve the root target_get is matched, both Ok(None) and Err "
-        "construct Terminate::Error and cannot reach Program::resolve. Undecided: that a rejected write leaves the embedder's target unchanged.")
+        "construct Terminate::Error and cannot reach Program::resolve. R17d: no execution path of a function performs two mutating `dyn Target` operations (target_insert/target_remove/target_get_mut) — "
+        "a write is a single target operation, so a fault in it cannot leave a half-applied change made by an earlier one. Undecided: that a rejected write "
+        "leaves the embedder's target unchanged inside the embedder's own implementation.")
     chk.assumptions += ["all accesses to the event target go through `dyn Target` (the Context only exposes &dyn/&mut dyn Target)",
                         "panics inside the embedder's Target implementation are the embedder's"]
     rid = "R17a"
@@ -131,3 +133,28 @@ def run(chk):
                           "when the root read yields %s: %s" % (case, bad), detail=d)
         else:
             chk.instance(rid, d, ok=True)
+
+
+def _siblings(chk):
+    """R17d: at most one mutating target operation per path"""
+    facts = chk.facts
+    rid = "R17d"
+    chk.rule(rid, "no path performs two mutating `dyn Target` operations", floor=2)
+    by_body = {}
+    for b, bb, t, method in ts.dyn_target_sites(facts):
+        if method in ("target_insert", "target_remove", "target_get_mut"):
+            by_body.setdefault(b.name, (b, []))[1].append((bb, t, method))
+    for n, (b, sites) in sorted(by_body.items()):
+        pairs = []
+        for bb1, t1, m1 in sites:
+            after = b.reachable_from_edges(b.succ(bb1))
+            for bb2, t2, m2 in sites:
+                if bb2 != bb1 and bb2 in after:
+                    pairs.append((m1, t1["ln"], m2, t2["ln"]))
+        d = {"fn": n, "mutating_sites": [(m, t["ln"]) for bb, t, m in sites], "sequenced_pairs": pairs[:3]}
+        chk.instance(rid, d, ok=not pairs)
+        if pairs:
+            m1, l1, m2, l2 = pairs[0]
+            chk.violation(rid, b.file, n, "two mutating target operations on one path",
+                          "%s performs %s (line %s) and then %s (line %s) on the same path: if the second is rejected by the target the first has already "
+                          "changed the event, so a rejected write no longer leaves the target unchanged" % (n, m1, l1, m2, l2), detail=d, loc="%s:%s" % (b.file, l1))
